@@ -48,16 +48,23 @@ func VerifC13Pipe() {
 	outs, _ := drv.Outs()
 	outs[0].Open()
 	var tr Track
-	stop, err := tr.RecordFrom(ins[0], MetricTicks(960), 120)
+	// resolution 500 at 120 BPM: exactly one tick per millisecond (the engine replaces Ticks by that contract)
+	stop, err := tr.RecordFrom(ins[0], MetricTicks(500), 120)
 	zz.Assert(err == nil, "record:start-ok")
 	var want [][]byte
+	var wantDelta []uint32
+	var since uint32 // milliseconds since the previous recorded channel message
 	for i := 0; i < M; i++ {
 		ks := string(rune('a' + i))
 		m, isCh := c13msg(ks)
-		drv.Sleep(time.Duration(zz.U16("sleep"+ks)) * time.Millisecond)
+		ms := zz.U16("sleep" + ks)
+		drv.Sleep(time.Duration(ms) * time.Millisecond)
+		since += uint32(ms)
 		zz.Assert(outs[0].Send(m) == nil, "record:send-ok")
 		if isCh {
 			want = append(want, m)
+			wantDelta = append(wantDelta, since)
+			since = 0
 		}
 	}
 	stop()
@@ -71,6 +78,7 @@ func VerifC13Pipe() {
 	zz.Assert(tr[0].Message.GetMetaTempo(&bpm), "record:first-event-is-the-tempo")
 	for i, w := range want {
 		zz.Assert(c02sameBytes(tr[1+i].Message, w), "record:channel-message-unchanged-in-order")
+		zz.Assert(tr[1+i].Delta == wantDelta[i], "record:delta-is-the-arrival-time-difference")
 	}
 	for _, ev := range tr {
 		// (the bit-vector mode over-approximates the float tick conversion by an arbitrary uint32; real deltas of
